@@ -94,6 +94,7 @@ type schedOut struct {
 	Foreign     int64              `json:"foreign_hook_calls,omitempty"`
 	SharedMut   string             `json:"shared_buffer_mutated,omitempty"`
 	IdleBytes   string             `json:"idle_device_delivered,omitempty"`
+	IdleChunks  []string           `json:"idle_device_reads,omitempty"`
 }
 
 type c12Engine struct {
@@ -331,6 +332,20 @@ func (g *c12Engine) readAheadTolerated(sp *schedPlan, out *schedOut, t, k int) b
 				uses++
 			}
 		}
+	}
+	if !foundIn && len(out.IdleChunks) > 0 {
+		// helper goroutines of several callers may interleave their reads on the shared device: the entropy
+		// must then be a concatenation of whole reads of that device, in order
+		rest := hx
+		for _, c := range out.IdleChunks {
+			if rest == "" {
+				break
+			}
+			if c != "" && strings.HasPrefix(rest, c) {
+				rest = rest[len(c):]
+			}
+		}
+		foundIn = rest == ""
 	}
 	return foundIn && uses == 1
 }
